@@ -242,7 +242,7 @@ PowerOf(p) == LET q == (st'.cands[p].total ** Nat2A(100000000)) // SumTotals IN 
 C17_Power ==
    Clause("C17", "PowersProportionalRoundedDown", Updated /\ IsPayout /\ ValNames(st') # {},
           /\ \A p \in ValNames(st') : \E u \in Range(ev'.end.updates) : u.p = p /\ Nat2A(u.power) = PowerOf(p)
-          /\ \A u \in Range(ev'.end.updates) : u.p \in ValNames(st') \/ (u.power = 0 /\ u.p \in ValNames(st)),
+          /\ \A u \in Range(ev'.end.updates) : u.p \in ValNames(st') \/ u.power = 0,      \* a key that is no validator any more (dropped, or retired by a key change) is removed
           [at |-> Where, updates |-> ev'.end.updates, want |-> [p \in ValNames(st') |-> PowerOf(p)]])
 C17_Step == C17_Set /\ C17_Power
 
@@ -256,11 +256,12 @@ C05_Cand ==
              /\ "status" \in ch => Tx.sender \in {st.cands[p].owner, st.cands[p].control},
           [at |-> WhereTx, changed |-> [p \in DOMAIN st.cands \cap DOMAIN st'.cands |-> CandFieldsChanged(p)], sender |-> Tx.sender])
 \* a delegator's stake + pending update + waitlist value at a candidate shrinks in a delivery only by its own transaction
-StakeHeld(s, p, o, c) == (IF p \in DOMAIN s.cands
-                          THEN SumOver(SelectSeq(s.cands[p].stakes, LAMBDA x : x.o = o /\ x.c = c), LAMBDA x : x.v)
-                               ++ SumOver(SelectSeq(s.cands[p].upd, LAMBDA x : x.o = o /\ x.c = c), LAMBDA x : x.v)
-                          ELSE Zero)
-Stakers(s) == UNION {{<<p, x.o, x.c>> : x \in Range(s.cands[p].stakes) \cup Range(s.cands[p].upd)} : p \in DOMAIN s.cands}
+\* (a candidate is identified by its id: its public key may change)
+PubOfId(s, id) == {p \in DOMAIN s.cands : s.cands[p].id = id}
+StakeHeld(s, id, o, c) == SumOver(SetToSeq(PubOfId(s, id)),
+                             LAMBDA p : SumOver(SelectSeq(s.cands[p].stakes, LAMBDA x : x.o = o /\ x.c = c), LAMBDA x : x.v)
+                                        ++ SumOver(SelectSeq(s.cands[p].upd, LAMBDA x : x.o = o /\ x.c = c), LAMBDA x : x.v))
+Stakers(s) == UNION {{<<s.cands[p].id, x.o, x.c>> : x \in Range(s.cands[p].stakes) \cup Range(s.cands[p].upd)} : p \in DOMAIN s.cands}
 C05_Stake ==
    Clause("C05", "StakesWithdrawnOnlyByOwner", Delivered,
           \A t \in Stakers(st) : StakeHeld(st', t[1], t[2], t[3]) \prec StakeHeld(st, t[1], t[2], t[3]) => t[2] \in Authorized,
